@@ -689,7 +689,7 @@ class Interp:
                 continue
             ss = samples_for(t)
             if ss is None:
-                if hasattr(t, attr):
+                if hasattr(t, attr) or self._source_class_has(t, attr):
                     return TOP
                 frame.raises.add(Raised('AttributeError', f'.{attr}', (t.__name__,), True, getattr(node, 'lineno', 0)))
                 continue
@@ -702,6 +702,34 @@ class Interp:
                 return Meth(base, attr)
             out.append(A(type(v)))
         return join_all(out) if out else A()
+
+    def _source_class_has(self, t, attr):
+        """A class synthesised from the package's source: does it (or a base) bind the attribute in its body, list it in __slots__,
+        define it as a method or property, or assign `self.<attr>` in any of its methods?"""
+        work, seen = [t], set()
+        while work:
+            c = work.pop()
+            if c in seen:
+                continue
+            seen.add(c)
+            work.extend(c.__bases__)
+            ci = self.reg.synth_info.get(c)
+            if ci is None:
+                continue
+            if attr in ci.methods:
+                return True
+            for n in ast.walk(ci.node):
+                if isinstance(n, ast.Attribute) and n.attr == attr and isinstance(n.ctx, ast.Store) and isinstance(n.value, ast.Name) \
+                        and n.value.id in ('self', 'cls'):
+                    return True
+                if isinstance(n, (ast.Assign, ast.AnnAssign)):
+                    tg = n.targets if isinstance(n, ast.Assign) else [n.target]
+                    if any(isinstance(x, ast.Name) and x.id == attr for x in tg) and n in ci.node.body:
+                        return True
+                    if any(isinstance(x, ast.Name) and x.id == '__slots__' for x in tg) and n.value is not None and \
+                            any(isinstance(e, ast.Constant) and e.value == attr for e in ast.walk(n.value)):
+                        return True
+        return False
 
     def from_hint(self, h):
         o = typing.get_origin(h)
